@@ -753,7 +753,7 @@ class ListOp(Op):
                 if meth == "setitem":
                     L[a[0]] = a[1]
                 elif meth == "setslice" and not (isinstance(a[1], dict) and "raise_after" in a[1]):
-                    L[_slice(a[0])] = list(a[1]["items"])
+                    L[_slice(a[0])] = list(wrap_items(m, a[1]) if "from_ir" in a[1] else a[1]["items"])
                 leaving = [x for x in cur if x not in L]
             except (IndexError, ValueError):
                 leaving = []
@@ -912,6 +912,8 @@ class ListOp(Op):
                 a = args[1]
                 if isinstance(a, dict) and "raise_after" in a:
                     raise SimFault()
+                if isinstance(a, dict) and "from_ir" in a:
+                    w.counters["probe:slice_assigned_from_other_collection"] += 1
                 L[_slice(args[0])] = items(a)
                 val = None
             elif meth == "reverse":
